@@ -33,6 +33,7 @@ injective on the names that occur (`C19_dfa_valid_of_injective_renaming`) — th
 import AutomataVerif.Props.C19b
 import AutomataVerif.Props.C12b
 import AutomataVerif.Proofs.GnfaBridge
+import AutomataVerif.Proofs.RenameValidate
 
 namespace AV.Props.C19
 open AV AV.VA AV.GNFA AV.GnfaSpec AV.GnfaBridge
@@ -189,5 +190,118 @@ theorem C19_loop_space_abs {c : Char} (hsp : pyIsSpace c = true) (h1 : c ≠ ' '
 
 example : (absGNFA simpleRxValid (C12.loopG '\n')).validate = .error (.lib .lexerError) :=
   C19_loop_space_abs (by decide) (by decide) (by decide)
+
+/-! ## Part 2 — `_minify(retain_names=False)`: validity does not depend on how the states are numbered
+
+`ResultsValid` (Props/C19b.lean) states the `retain_names=False` results with `DFA.renumber` (the
+BFS discovery index); after `_minify` the code numbers the blocks with `enumerate` instead — some
+other injective numbering of the same blocks.  The theorems below make the remark "the same DFA
+up to an injective renaming" a statement: `validate` returns the same (`ok`, or the same
+exception) on a DFA and on every renaming of it that is injective on the names that occur, and
+for "valid stays valid" no injectivity is needed at all.  `MinifyAnyNumbering` restates every
+`…_renumbered` field that goes through `_minify` for an arbitrary numbering `f`. -/
+
+section RenameSec
+variable {σ τ α : Type} [DecidableEq σ] [DecidableEq τ] [DecidableEq α]
+
+/-- **C19_dfa_validate_rename_invariant** — `DFA.validate` is invariant under every renaming of
+the states that is injective on the names occurring in the definition (states, row keys,
+transition targets, initial state, final states): same `ok`, same exception. -/
+theorem C19_dfa_validate_rename_invariant (f : σ → τ) (d : DFA σ α)
+    (hinj : C04.InjOn f (RenameValidate.names d)) : (d.rename f).validate = d.validate :=
+  RenameValidate.validate_rename f d hinj
+
+/-- The same for a globally injective renaming. -/
+theorem C19_dfa_validate_rename_injective (f : σ → τ) (hf : Function.Injective f) (d : DFA σ α) :
+    (d.rename f).validate = d.validate :=
+  RenameValidate.validate_rename f d (RenameValidate.injOn_of_injective f hf _)
+
+/-- Validity of a DFA is invariant under any injective renaming of its states. -/
+theorem C19_dfa_valid_iff_of_injective_renaming (f : σ → τ) (hf : Function.Injective f)
+    (d : DFA σ α) : (d.rename f).validate = .ok () ↔ d.validate = .ok () := by
+  rw [C19_dfa_validate_rename_injective f hf d]
+
+/-- "Valid stays valid" needs no injectivity (`C04.rename_valid`); with injectivity on the states
+and row keys the renamed DFA is also duplicate-free (a Python value) and accepts the same words. -/
+theorem C19_dfa_valid_of_renaming (f : σ → τ) (d : DFA σ α) (hv : d.validate = .ok ()) :
+    (d.rename f).validate = .ok () ∧
+    (C04.InjOn f (d.states ++ akeys d.trans) →
+      (d.PyShape → (d.rename f).PyShape) ∧ ∀ w, (d.rename f).accepts w = d.accepts w) :=
+  ⟨C04.rename_valid f hv, fun hinj =>
+    ⟨fun p => C04.rename_pyShape f ((DFA.validate_eq_ok d).mp hv) p hinj,
+     fun w => C04.rename_accepts f ((DFA.validate_eq_ok d).mp hv) hinj w⟩⟩
+
+/-- `renumber` is one such renaming. -/
+example (d : DFA σ α) (hv : d.validate = .ok ()) : d.renumber.validate = .ok () :=
+  (C19_dfa_valid_of_renaming (fun s => indexOf s d.states) d hv).1
+
+end RenameSec
+
+/-- Every `retain_names=False` result that goes through `_minify`, for an ARBITRARY numbering `f`
+of the states of the `retain_names=True` result (the code's `enumerate(blocks)`, the model's
+`renumber`, or any other): it passes `validate`. -/
+structure MinifyAnyNumbering : Prop where
+  dfa_binop_min : ∀ {σ α τ : Type} [DecidableEq σ] [DecidableEq α] [DecidableEq τ] (op : DFA.BinOp)
+    (A B : DFA σ α) (pick : List Nat → Nat),
+    A.validate = .ok () → B.validate = .ok () → A.PyShape → A.symsEq B = true →
+    ∃ M, A.binopMin op B pick = .ok M ∧ ∀ f : _ → τ, (M.rename f).validate = .ok ()
+  dfa_complement_min : ∀ {σ α τ : Type} [DecidableEq σ] [DecidableEq α] [DecidableEq τ]
+    (d : DFA σ α) (trap : σ) (pick : List Nat → Nat),
+    d.validate = .ok () → d.PyShape → trap ∉ d.states →
+    ∃ M, d.complementMinFull trap pick = .ok M ∧ ∀ f : _ → τ, (M.rename f).validate = .ok ()
+  dfa_to_partial_min : ∀ {σ α τ : Type} [DecidableEq σ] [DecidableEq α] [DecidableEq τ]
+    (d : DFA σ α) (pick : List Nat → Nat), d.validate = .ok () → d.PyShape →
+    ∀ f : _ → τ, ((d.toPartialMin pick).rename f).validate = .ok ()
+  dfa_minify : ∀ {σ α τ : Type} [DecidableEq σ] [DecidableEq α] [DecidableEq τ] (d : DFA σ α)
+    (pick : List Nat → Nat), d.validate = .ok () → d.PyShape →
+    ∀ f : _ → τ, ((d.minify pick).rename f).validate = .ok ()
+  dfa_from_nfa_min : ∀ {σ α τ : Type} [DecidableEq σ] [DecidableEq α] [DecidableEq τ] (n : NFA σ α)
+    (pick : List Nat → Nat), n.validate = .ok () → n.PyShape →
+    ∀ f : _ → τ, ((n.toDFAMin pick).rename f).validate = .ok ()
+
+/-- **C19_minify_any_numbering** — from `C19_results_valid` and `C19_dfa_valid_of_renaming`. -/
+theorem C19_minify_any_numbering : MinifyAnyNumbering where
+  dfa_binop_min := fun op A B pick hA hB pA hs =>
+    let ⟨M, h, v⟩ := C19_results_valid.dfa_binop_min op A B pick hA hB pA hs
+    ⟨M, h, fun f => (C19_dfa_valid_of_renaming f M v).1⟩
+  dfa_complement_min := fun d trap pick hd pd ht =>
+    let ⟨M, h, v⟩ := C19_results_valid.dfa_complement_min d trap pick hd pd ht
+    ⟨M, h, fun f => (C19_dfa_valid_of_renaming f M v).1⟩
+  dfa_to_partial_min := fun d pick hd pd f =>
+    (C19_dfa_valid_of_renaming f _ (C19_results_valid.dfa_to_partial_min d pick hd pd)).1
+  dfa_minify := fun d pick hd pd f =>
+    (C19_dfa_valid_of_renaming f _ (C19_results_valid.dfa_minify d pick hd pd)).1
+  dfa_from_nfa_min := fun n pick hv ps f =>
+    (C19_dfa_valid_of_renaming f _ (C19_results_valid.dfa_from_nfa_min n pick hv ps)).1
+
+/-! ### non-vacuity -/
+
+/-- A renaming of the C04 example DFA by a non-monotone injective map: same verdict of
+`validate` (here `ok`), as `C19_dfa_validate_rename_invariant` says. -/
+def swapName (q : Nat) : Nat := if q = 0 then 5 else if q = 1 then 3 else q + 10
+
+example : C04.InjOn swapName (RenameValidate.names C04.exA) := by decide
+example : (C04.exA.rename swapName).validate = .ok () := by decide
+example : (C04.exA.rename swapName).validate = C04.exA.validate :=
+  C19_dfa_validate_rename_invariant swapName C04.exA (by decide)
+
+/-- … and on an INVALID definition (a transition into a state that does not exist) both raise
+the same class. -/
+def exBadTarget : AV.DFA Nat Nat :=
+  { states := [0, 1], syms := [0, 1], trans := [(0, [(0, 0), (1, 7)]), (1, [(0, 0)])],
+    init := 0, finals := [1], allowPartial := true }
+example : exBadTarget.validate = .error (.lib .invalidStateError) := by decide
+example : (exBadTarget.rename swapName).validate = .error (.lib .invalidStateError) := by
+  rw [C19_dfa_validate_rename_invariant swapName exBadTarget (by decide)]; decide
+
+/-- Injectivity on the occurring names is needed for the invariance (not for "valid stays
+valid"): collapsing the missing target 7 onto the state 0 makes an invalid definition valid. -/
+example : (exBadTarget.rename fun q => if q = 7 then 0 else q).validate = .ok () := by decide
+
+/-- The minified symmetric difference of the two C04 examples (the default call `exA ^ exB`),
+with its blocks numbered by an arbitrary function, passes `validate`. -/
+example : (match C04.exA.binopMin .symm C04.exB (fun _ => 0) with
+           | .ok M => (M.rename fun q => 100 - 7 * indexOf q M.states).validate
+           | .error e => .error e) = .ok () := by decide
 
 end AV.Props.C19
